@@ -269,6 +269,16 @@ def bodyOps (params : List Rune) : List BStmt → LoopSt → List POp
     | .emitLocal _ => .emit :: bodyOps params rest st
     | _ => bodyOps params rest st
 
+open VaxisModel.Model.ParserActs in
+/-- For the negative witness only: the skeleton of `csiDispatch` with `param = p.paramPool.Get()[:0]`
+    dropped from the `case ';'` clause (the next parameter would be appended to the array already
+    stored in `csi.Parameters`). -/
+def noGetBody : List BStmt :=
+  [.declSeq .csi, .takeInter .csi, .emitRetIfNoParams .csi, .op .newParams, .op .psZero, .op .newParam,
+   .paramLoop [(0x3B, [.appendParamPs, .appendParamsParam, .psZero]), (0x3A, [.appendParamPs, .psZero])]
+     [.psMulConst 10, .psAddDigit 0x30],
+   .op .appendParamPs, .op .appendParamsParam, .emitLocal .csi]
+
 /-! ### schedules for the non-vacuity examples of `Props/C08DriveParams.lean` -/
 
 /-- `ESC [ 1 ; 2 : 3 m  ESC [ 4 m`: the first CSI is retained while the second one is parsed; its
